@@ -37,7 +37,15 @@ module Nat :
   val ltb : nat -> nat -> bool
  end
 
+val tl : 'a1 list -> 'a1 list
+
+val in_dec : ('a1 -> 'a1 -> bool) -> 'a1 -> 'a1 list -> bool
+
+val nth_error : 'a1 list -> nat -> 'a1 option
+
 val rev : 'a1 list -> 'a1 list
+
+val list_eq_dec : ('a1 -> 'a1 -> bool) -> 'a1 list -> 'a1 list -> bool
 
 val map : ('a1 -> 'a2) -> 'a1 list -> 'a2 list
 
@@ -52,6 +60,8 @@ val forallb : ('a1 -> bool) -> 'a1 list -> bool
 val filter : ('a1 -> bool) -> 'a1 list -> 'a1 list
 
 val combine : 'a1 list -> 'a2 list -> ('a1 * 'a2) list
+
+val nodup : ('a1 -> 'a1 -> bool) -> 'a1 list -> 'a1 list
 
 val seq : nat -> nat -> nat list
 
@@ -135,6 +145,8 @@ module Coq_Pos :
   val to_nat : positive -> nat
 
   val of_succ_nat : nat -> positive
+
+  val eq_dec : positive -> positive -> bool
  end
 
 module N :
@@ -162,6 +174,8 @@ module N :
   val coq_land : n -> n -> n
 
   val ldiff : n -> n -> n
+
+  val eq_dec : n -> n -> bool
  end
 
 module Z :
@@ -759,6 +773,8 @@ val digits_val : n list -> z
 
 type decimal = { d_neg : bool; d_mant : z; d_exp10 : z; d_ndig : z }
 
+val hd_is : n -> str -> bool
+
 val parse_decimal : str -> decimal option
 
 val strip_twos : nat -> z -> z -> z * z
@@ -885,6 +901,127 @@ val p_parse : envcfg -> token list -> query pres
 
 val m_compile : envcfg -> str -> query result
 
+type gexp =
+| GEps
+| GRange of n * n
+| GSeq of gexp * gexp
+| GAlt of gexp * gexp
+| GStar of gexp
+| GRef of nat
+
+type grammar = nat -> gexp
+
+val str_eq_dec : str -> str -> bool
+
+val recog : grammar -> nat -> gexp -> str -> str list
+
+val accepts : grammar -> nat -> gexp -> str -> bool
+
+val gChar : n -> gexp
+
+val gLit : n list -> gexp
+
+val gOpt : gexp -> gexp
+
+val gPlus : gexp -> gexp
+
+val gAlts : gexp list -> gexp
+
+val gSeqs : gexp list -> gexp
+
+val gCi : n -> gexp
+
+type rule =
+| R_jsonpath_query
+| R_segments
+| R_B
+| R_S
+| R_selector
+| R_string_literal
+| R_double_quoted
+| R_single_quoted
+| R_unescaped
+| R_escapable
+| R_hexchar
+| R_non_surrogate
+| R_high_surrogate
+| R_low_surrogate
+| R_HEXDIG
+| R_int
+| R_DIGIT1
+| R_slice_selector
+| R_filter_selector
+| R_logical_or_expr
+| R_logical_and_expr
+| R_basic_expr
+| R_paren_expr
+| R_test_expr
+| R_filter_query
+| R_rel_query
+| R_comparison_expr
+| R_literal
+| R_comparable
+| R_comparison_op
+| R_singular_query
+| R_singular_query_segments
+| R_name_segment
+| R_index_segment
+| R_number
+| R_frac
+| R_exp
+| R_function_name
+| R_function_expr
+| R_function_argument
+| R_segment
+| R_child_segment
+| R_bracketed_selection
+| R_member_name_shorthand
+| R_name_first
+| R_name_char
+| R_DIGIT
+| R_ALPHA
+| R_descendant_segment
+
+val rule_id : rule -> nat
+
+val r : rule -> gexp
+
+val c : n -> gexp
+
+val s_ : gexp
+
+val rule_body : rule -> gexp
+
+val all_rules : rule list
+
+val rfc_grammar : grammar
+
+val rfc_fuel : str -> nat
+
+val in_rfc_fuel : nat -> str -> bool
+
+val in_rfc : str -> bool
+
+val singular_seg : seg -> bool
+
+val singular : seg list -> bool
+
+val is_logical : ty3 -> bool
+
+val ret_ok : ty3 -> ty3 -> bool
+
+val wt_seg : registry -> seg -> bool
+
+val wt_query : registry -> query -> bool
+
+val zr : z -> z -> z -> bool
+
+val ozr : z -> z -> z option -> bool
+
+val ir_seg : z -> z -> seg -> bool
+
+val ints_in_range : z -> z -> query -> bool
+
 val iota_json : z -> json list
 
 val enc_sel0 : (z * json) list -> z list
@@ -906,5 +1043,9 @@ val op_tokenize : z list -> z list
 val op_float : z list -> z list
 
 val op_compile : z list -> z list
+
+val op_in_rfc : z list -> z list
+
+val op_valid : z list -> z list
 
 val dispatch : z list -> z list
